@@ -409,6 +409,19 @@ theorem diff_getElem {α} (pre A B post : List α) (h : A.length = B.length) :
   · rw [List.getElem?_append_right (by simp; omega), List.getElem?_append_right (by simp; omega)]
     simp [h]
 
+/-- setting a field other than the AndX block commutes with the prologue, as far as reads go -/
+theorem prologueEnv_set_get (b : Bool) (env : Env) (f : String) (v : Val) (hf : f ≠ andxField) (g : String) :
+    (prologueEnv b (env.set f v)).get g = ((prologueEnv b env).set f v).get g := by
+  have hax : (env.set f v).get andxField = env.get andxField := Env.get_set_ne env f andxField v (Ne.symm hf)
+  unfold prologueEnv
+  rw [hax]
+  split
+  · simp only [Env.get_set]
+    by_cases h1 : g = andxField
+    · subst h1; simp [Ne.symm hf]
+    · simp [h1]
+  · rfl
+
 /-- **Slot locality** (the property theorem `Manticore.C04.slot_locality` is this statement). -/
 theorem slot_locality_core (C : Codecs) (c : Cmd) (f : String) (lo hi : Nat) (h : slotRange c f = some (lo, hi))
     (env : Env) (v : Val) (a b : Bytes) (ha : encodeCmd C c env = .ok a) (hb : encodeCmd C c (env.set f v) = .ok b) :
@@ -417,7 +430,8 @@ theorem slot_locality_core (C : Codecs) (c : Cmd) (f : String) (lo hi : Nat) (h 
   split at h
   · cases h
   · rename_i hcount
-    have hcount' : (c.marshal.filter (·.mentions f)).length = 1 := by simpa using hcount
+    simp only [Bool.or_eq_true, beq_iff_eq, bne_iff_ne, ne_eq, not_or, Decidable.not_not] at hcount
+    obtain ⟨hfa, hcount'⟩ := hcount
     split at h
     · cases h
     · rename_i m hl
@@ -430,11 +444,28 @@ theorem slot_locality_core (C : Codecs) (c : Cmd) (f : String) (lo hi : Nat) (h 
         rename_i sa' hra
         split at hb <;> try cases hb
         rename_i sb' hrb
-        have hag : AgreeOff f env (env.set f v) := fun g hg => (Env.get_set_ne env f g v hg).symm
-        obtain ⟨X, A, B, Y, hPa, hPb, hX, hA, hB, hD, _⟩ := locality_run C c.isAndX f c.marshal m { env := env }
-          { env := env.set f v } sa' sb' 0 off w hl hcount' hslot hag rfl rfl rfl rfl hra hrb
-        have hha : sa'.head = [] := runMStmts_head C c.isAndX c.marshal m { env := env } sa' hl hra
-        have hhb : sb'.head = [] := runMStmts_head C c.isAndX c.marshal m { env := env.set f v } sb' hl hrb
+        have hag : AgreeOff f (prologueEnv c.isAndX env) (prologueEnv c.isAndX (env.set f v)) := by
+          intro g hg
+          rw [prologueEnv_set_get c.isAndX env f v hfa g]
+          exact (Env.get_set_ne _ f g v hg).symm
+        -- the same AndX bytes go out in both runs
+        have hax : andxBytesOf c.isAndX (prologueEnv c.isAndX (env.set f v)) =
+            andxBytesOf c.isAndX (prologueEnv c.isAndX env) := by
+          unfold andxBytesOf
+          rw [← hag andxField (Ne.symm hfa)]
+        have haxl : (andxBytesOf c.isAndX (prologueEnv c.isAndX env)).length = (andxBytes c.isAndX).length := by
+          unfold andxBytesOf andxBytes
+          cases c.isAndX
+          · rfl
+          · simp only [if_true]; split <;> rfl
+        rw [hax]
+        generalize andxBytesOf c.isAndX (prologueEnv c.isAndX env) = ax at haxl ⊢
+        obtain ⟨X, A, B, Y, hPa, hPb, hX, hA, hB, hD, _⟩ := locality_run C c.isAndX f c.marshal m
+          { env := prologueEnv c.isAndX env }
+          { env := prologueEnv c.isAndX (env.set f v) } sa' sb' 0 off w hl hcount' hslot hag rfl rfl rfl rfl hra hrb
+        have hha : sa'.head = [] := runMStmts_head C c.isAndX c.marshal m { env := prologueEnv c.isAndX env } sa' hl hra
+        have hhb : sb'.head = [] :=
+          runMStmts_head C c.isAndX c.marshal m { env := prologueEnv c.isAndX (env.set f v) } sb' hl hrb
         have hlenP : sa'.P.length = sb'.P.length := by rw [hPa, hPb]; simp [hA, hB]
         have hwc : wordCountOf c.isAndX sa'.P = wordCountOf c.isAndX sb'.P := by simp [wordCountOf, hlenP]
         rw [hha, hhb, hD] at *
@@ -443,17 +474,17 @@ theorem slot_locality_core (C : Codecs) (c : Cmd) (f : String) (lo hi : Nat) (h 
         · simp only [hz, if_true]
           rw [hPa, hPb]
           have e1 : ∀ Z : Bytes, (UInt8.ofNat (wordCountOf c.isAndX sb'.P % 256) ::
-              (andxBytes c.isAndX ++ (X ++ Z ++ Y ++ if sb'.P.length % 2 = 1 then [0] else []))) ++ dataBlock sb'.D =
-              (UInt8.ofNat (wordCountOf c.isAndX sb'.P % 256) :: (andxBytes c.isAndX ++ X)) ++ Z ++
+              (ax ++ (X ++ Z ++ Y ++ if sb'.P.length % 2 = 1 then [0] else []))) ++ dataBlock sb'.D =
+              (UInt8.ofNat (wordCountOf c.isAndX sb'.P % 256) :: (ax ++ X)) ++ Z ++
                 (Y ++ (if sb'.P.length % 2 = 1 then [0] else []) ++ dataBlock sb'.D) := by
             intro Z; simp [List.append_assoc]
           rw [hPb] at e1
           rw [e1 A, e1 B]
-          have := diff_getElem (UInt8.ofNat (wordCountOf c.isAndX sb'.P % 256) :: (andxBytes c.isAndX ++ X)) A B
+          have := diff_getElem (UInt8.ofNat (wordCountOf c.isAndX sb'.P % 256) :: (ax ++ X)) A B
             (Y ++ (if (X ++ B ++ Y).length % 2 = 1 then [0] else []) ++ dataBlock sb'.D) (by rw [hA, hB])
           rw [← hPb] at this ⊢
           refine ⟨this.1, fun i hi => this.2 i ?_⟩
-          simp only [List.length_cons, List.length_append, hX, hA] at hi ⊢
+          simp only [List.length_cons, List.length_append, hX, hA, haxl] at hi ⊢
           omega
         · simp only [hz, if_false]
           exact ⟨trivial, fun _ _ => trivial⟩
